@@ -1538,6 +1538,9 @@ fn c11(ix: &Ix, f: &mut Findings) {
                 }
                 if *model == 0 && ended && ix.sim() && !phase.starts_with("client") && !ix.pending_work(a, i) {
                     f.o("C11.upgrade");
+                    if *weak_alive {
+                        f.v("C11.upgrade", Some(a), format!("ActorWeak::is_alive() is true for actor {a} at log position {i} although the actor has ended and no strong handle or queued message exists"));
+                    }
                     if *upgrade {
                         f.v("C11.upgrade", Some(a), format!("upgrade() is Some for actor {a} at log position {i} although the actor has ended and no strong handle or queued message exists"));
                     }
